@@ -137,15 +137,18 @@ class Run:
         return random.Random(f"{self.seed}:{self.prop}:{name}")
 
 
-def proof_step(run: Run, thorough: bool) -> List[str]:
-    """Build the property's theorems, audit axioms, scan for escape hatches. Returns broken names."""
+def proof_step(run: Run, thorough: bool, extra_modules: Sequence[str] = ()) -> List[str]:
+    """Build the property's theorems, audit axioms, scan for escape hatches. Returns broken names.
+    `extra_modules`: further Props/<m>.lean files whose OBLIGATIONS also belong to this property."""
     prop = run.prop
     names = lean.obligations(prop)
-    ok, log = lean.build([f"Deepali.Props.{prop}", "Deepali.Drv.All"])
+    for m in extra_modules:
+        names = names + [n for n in lean.obligations(m) if n not in names]
+    ok, log = lean.build([f"Deepali.Props.{m}" for m in [prop, *extra_modules]] + ["Deepali.Drv.All"])
     broken: List[str] = []
     res: Dict[str, dict] = {}
     if ok and names:
-        res = lean.audit(prop, names)
+        res = lean.audit(prop, names, extra_modules)
         broken = [n for n in names if not res[n]["ok"]]
     else:
         broken = list(names) or [f"Deepali.Props.{prop}"]
@@ -335,7 +338,7 @@ def finish(run: Run, mod, level: str = "proof") -> int:
 
 def run_check(mod, tier: str, seed: int) -> int:
     run = Run(mod.PROP, tier, seed)
-    proof_step(run, thorough=(tier == "thorough"))
+    proof_step(run, thorough=(tier == "thorough"), extra_modules=getattr(mod, "EXTRA_OBLIGATION_MODULES", ()))
     if run.proof["build_ok"]:
         run_streams(run, mod.STREAMS)
     # search: feed disagreeing cases to the oracles that understand them, then the regular budget
@@ -374,7 +377,7 @@ def run_replay(mod, path: str) -> int:
             if why:
                 rc = 1
         if payload.get("theorems_not_checked"):
-            broken = proof_step(run, thorough=False)
+            broken = proof_step(run, thorough=False, extra_modules=getattr(mod, "EXTRA_OBLIGATION_MODULES", ()))
             print("replay: theorems not checking: " + (", ".join(broken) or "none"))
             rc = rc or (1 if broken else 0)
         if rc:
